@@ -282,9 +282,14 @@ def run(ctx: Check) -> int:
                 [["info\t" + " ".join(_tokens(results[id(c)]))] for c in sample])
     mutant_out, info_out = out[:k], out[k:]
     ref = {id(c): o for c, o in zip(allc, mout)}
-    if mout and all(mutant_out[i] == ref.get(id(explore_cases[i])) for i in range(k)):
+    accepted = [i for i in range(k) if (ref.get(id(explore_cases[i])) or [""])[0].startswith("acc")
+                and "TCu" in results[id(explore_cases[i])].tokens]      # traces the mutant must reject
+    if accepted and all(mutant_out[i] == ref[id(explore_cases[i])] for i in accepted):
         raise Infra("self-test of the trace stream: mutant model indistinguishable — harness is blind")
-    ctx.extra.setdefault("selftests", []).append("traces/mutant-model")
+    if accepted:
+        ctx.extra.setdefault("selftests", []).append("traces/mutant-model")
+    else:
+        ctx.notes.append("self-test skipped: the model accepts none of the sampled traces with a catch-up (correspondence is broken)")
     cls: dict[str, int] = {}
     agree = cd_order_viol = 0
     for c, v in zip(sample, info_out):
